@@ -34,7 +34,9 @@ MCEncNone    == {}
 MCEncQ       == {"crlf"}
 MCEncAll     == {"crlf", "mixed", "nonl", "bom"}
 MCHelpers    == {"h", "hc"}
-MCHelpersQ   == {"hc"}
+\* hc: a declaration with a /* */ comment inside; hr: a helper METHOD ON THE ROOT RESOLVER STRUCT (func (r *Resolver) ...)
+MCHelpersQ   == {"hc", "hr"}
+MCHelpersAll == {"h", "hc", "hr"}
 MCHelpersH   == {"h"}
 MCImportsA   == {"alias"}
 MCImportsQ3  == {"alias", "asfx", "arsv"}
